@@ -132,7 +132,17 @@ def ball_pt(rng, rmax=0.9):
 def gen_poly(rng, n):
     for i in range(n):
         nv = rng.choice([3, 4, 5, 6, 7, 8])
-        kind = rng.choice(["random", "random", "convex", "through_origin", "nearly_straight", "ideal", "lattice"])
+        kind = rng.choice(["random", "random", "convex", "through_origin", "nearly_straight", "ideal", "lattice", "window"])
+        if kind == "window":
+            # explicit axis limits (wider / shifted windows) with the vertices spread over the visible half-plane window,
+            # among them nearly vertical edges (straight pieces) anywhere in the window
+            xlim = rng.choice([[-12.0, 12.0], [3.0, 15.0], [-20.0, -5.0], [-6.0, 6.0], [-2.0, 9.0]])
+            ylim = rng.choice([[-0.1, 8.0], [-0.1, 14.0], [-0.1, 4.0]])
+            hs = [[rng.uniform(xlim[0] + 0.5, xlim[1] - 0.5), rng.uniform(0.3, ylim[1] - 0.5)] for _ in range(nv)]
+            j = rng.randrange(nv)
+            hs[(j + 1) % nv] = [hs[j][0] + rng.choice([1e-3, 1e-4, 1e-6, 0.0]) * rng.choice([-1, 1]), rng.uniform(0.3, ylim[1] - 0.5)]
+            yield {"verts": [[0.0, 0.0]] * nv, "hs_verts": hs, "model": "halfspace", "kind": kind, "transform": None, "xlim": xlim, "ylim": ylim}
+            continue
         if kind == "convex":
             ts = sorted(rng.uniform(0, 2 * math.pi) for _ in range(nv))
             r = rng.uniform(0.2, 0.9)
@@ -166,23 +176,34 @@ def gen_poly(rng, n):
         # the transform is the identity for the special kinds (so that the special edge stays special in the drawing)
         tr = rand_iso(rng) if (kind in ("random", "convex") and rng.random() < 0.5) else None
         model = rng.choice(["poincare", "poincare", "halfspace"]) if kind != "ideal" else rng.choice(["halfspace", "halfspace", "poincare"])
-        yield {"verts": vs, "model": model, "kind": kind, "transform": tr}
+        out_ = {"verts": vs, "model": model, "kind": kind, "transform": tr}
+        if rng.random() < 0.3:
+            # non-default axis limits
+            out_["xlim"], out_["ylim"] = ([-1.5, 1.5], [-1.2, 1.2]) if model == "poincare" else (rng.choice([[-9.0, 9.0], [-4.0, 7.0]]), rng.choice([[-0.1, 8.0], [-0.1, 11.0]]))
+        yield out_
 
 
 def make_poly(inp):
+    if inp.get("hs_verts") is not None:
+        return H.Polygon(H.Point(np.array(inp["hs_verts"]), model="halfspace"))
     return H.Polygon(H.Point(np.array(inp["verts"]), model="klein"))
 
 
-def drawing(model, tr):
+def drawing(model, tr, xlim=None, ylim=None):
     T = iso_matrix(tr)
-    return D.HyperbolicDrawing(model=model, transform=T), (np.eye(3) if T is None else np.asarray(T.proj_data, float))
+    kw = {}
+    if xlim is not None:
+        kw["xlim"] = tuple(xlim)
+    if ylim is not None:
+        kw["ylim"] = tuple(ylim)
+    return D.HyperbolicDrawing(model=model, transform=T, **kw), (np.eye(3) if T is None else np.asarray(T.proj_data, float))
 
 
 # ------------------------------------------------------------------------------------------------
 # S2: the assembled path vs the model fed with the drawing's own pieces
 # ------------------------------------------------------------------------------------------------
 def run_assemble(inp):
-    d, Tm = drawing(inp["model"], inp["transform"])
+    d, Tm = drawing(inp["model"], inp["transform"], inp.get("xlim"), inp.get("ylim"))
     try:
         poly = d.preprocess_object(make_poly(inp))[0]
         segs = poly.get_edges()
@@ -242,7 +263,7 @@ def judge_assemble(inp, obs, lr):
 # S3a: the drawn polygon is the polygon
 # ------------------------------------------------------------------------------------------------
 def run_poly(inp):
-    d, Tm = drawing(inp["model"], inp["transform"])
+    d, Tm = drawing(inp["model"], inp["transform"], inp.get("xlim"), inp.get("ylim"))
     try:
         npatch = len(d.ax.patches)
         d.draw_polygon(make_poly(inp), facecolor="lightgreen")
@@ -263,7 +284,7 @@ def judge_poly(inp, obs, lr):
     T = iso_matrix(inp["transform"])
     Tm = np.eye(3) if T is None else np.asarray(T.proj_data, float)
     proj = apply_T(Tm, np.concatenate([np.ones((len(inp["verts"]), 1)), np.array(inp["verts"])], -1))
-    V = klein_to(model, proj[:, 1:] / proj[:, :1])
+    V = klein_to(model, proj[:, 1:] / proj[:, :1]) if inp.get("hs_verts") is None else np.array(inp["hs_verts"], float)
     verts, codes = np.array(obs["verts"]), obs["codes"]
     k = len(V)
     at_inf = [i for i in range(k) if not finite(V[i]) or (model == "halfspace" and abs(V[i][0]) > 1e6)]
@@ -327,7 +348,7 @@ def judge_poly_at_infinity(inp, obs, V, at_inf, tags):
     tags = dict(tags, at_infinity=True)
     verts, codes = np.array(obs["verts"]), obs["codes"]
     k = len(V)
-    top = D.default_model_limits(Model.HALFSPACE)[1][1]
+    top = D.default_model_limits(Model.HALFSPACE)[1][1] if inp.get("ylim") is None else inp["ylim"][1]
     if codes.count(1) != 1 or codes[0] != 1:
         return {"expected": "exactly one MOVETO, first", "observed": codes[:20], "tags": dict(tags, what="moveto")}
     if not finite(verts):
@@ -639,9 +660,13 @@ def gen_hist(rng, n):
                 steps.append({"op": "draw", "obj": rng.randrange(nobj), "second": rng.random() < 0.3, "cast": rng.random() < 0.2})
             elif c < 0.8:
                 steps.append({"op": rng.choice(["set_transform", "add_transform", "precompose_transform"]), "iso": rand_iso(rng)})
-            else:
+            elif c < 0.9:
                 j = rng.randrange(nobj)
                 steps.append({"op": "edit", "obj": j, "pts": [ball_pt(rng, 0.8) for _ in objs[j]["pts"]]})
+            else:
+                j = rng.randrange(nobj)
+                steps.append({"op": "edit_copy", "obj": j, "how": rng.choice(["ctor", "flatten", "reshape", "copy"]),
+                              "pts": [ball_pt(rng, 0.8) for _ in objs[j]["pts"]], "reverse": rng.random() < 0.4})
         steps.append({"op": "draw", "obj": rng.randrange(nobj)})
         yield {"model": model, "objs": objs, "steps": steps, "iso2": rand_iso(rng)}
 
@@ -700,6 +725,43 @@ def run_hist(inp):
                 pr = apply_T(Tm, np.concatenate([np.ones((len(cur[st["obj"]]), 1)), cur[st["obj"]]], -1))
                 want = klein_to(inp["model"], pr[:, 1:] / pr[:, :1])
                 out.append({"kind": kind, "got": None if got is None else got.tolist(), "want": want.tolist(), "cast": bool(st.get("cast"))})
+            elif st["op"] == "edit_copy":
+                # a composite object and a copy of it (constructor / flatten_to_unit / reshape / copy), both queried; ONE of the
+                # two is edited item by item; the other one must still be drawn where it was
+                from copy import copy as _copy
+                kindc = inp["objs"][st["obj"]]["kind"]
+                if kindc == "point":
+                    kindc = "segment"
+                m_ = 2 if kindc == "segment" else 3
+                allp = np.array(st["pts"] + inp["objs"][st["obj"]]["pts"] + [[0.1, 0.2], [-0.3, 0.1], [0.2, -0.4], [0.0, 0.5], [0.4, 0.4], [-0.5, -0.2]])
+                base = allp[:2 * m_].reshape(2, m_, 2)
+                repl = allp[2 * m_:3 * m_].reshape(1, m_, 2) if len(allp) >= 3 * m_ else base[:1] * 0.5
+                mk_ = (lambda a: H.Segment(H.Point(a, model="klein"))) if kindc == "segment" else (lambda a: H.Polygon(H.Point(a, model="klein")))
+                S = mk_(base)
+                cp = {"ctor": lambda: type(S)(S), "flatten": lambda: S.flatten_to_unit(), "reshape": lambda: S.reshape(S.shape),
+                      "copy": lambda: _copy(S)}[st["how"]]()
+                S.circle_parameters() if kindc == "segment" else S.get_edges().circle_parameters()
+                edited, kept = (S, cp) if st["reverse"] else (cp, S)
+                if not np.shares_memory(cp.proj_data, S.proj_data):
+                    edited[0] = mk_(repl)[0]
+                    before = (len(d1.ax.patches), len(d1.ax.collections), len(d1.ax.lines))
+                    (d1.draw_geodesic if kindc == "segment" else d1.draw_polygon)(kept)
+                    pts_ = []
+                    for a_ in d1.ax.patches[before[0]:]:
+                        if isinstance(a_, matplotlib.patches.Arc):
+                            c0, r0 = np.array(a_.center, float), a_.width / 2
+                            pts_ += [c0 + r0 * np.array([math.cos(math.radians(t)), math.sin(math.radians(t))]) for t in (a_.theta1, a_.theta2)]
+                        else:
+                            pts_ += list(np.asarray(a_.get_path().vertices, float))
+                    for c_ in d1.ax.collections[before[1]:]:
+                        for pth in c_.get_paths():
+                            pts_ += list(np.asarray(pth.vertices, float))
+                    Tm = np.asarray(d1.transform.proj_data, float)
+                    flat = base.reshape(-1, 2)
+                    pr = apply_T(Tm, np.concatenate([np.ones((len(flat), 1)), flat], -1))
+                    want = klein_to(inp["model"], pr[:, 1:] / pr[:, :1])
+                    out.append({"kind": kindc, "got": np.array(pts_).tolist() if pts_ else None, "want": want.tolist(), "cast": False,
+                                "note": "original drawn after its %s copy was edited%s" % (st["how"], " (reverse)" if st["reverse"] else "")})
             elif st["op"] == "edit":
                 j = st["obj"]
                 new = np.concatenate([np.ones((len(st["pts"]), 1)), np.array(st["pts"])], -1)
@@ -726,10 +788,12 @@ def judge_hist(inp, obs, lr):
             return {"expected": "an artist for draw %d" % i, "observed": None, "tags": dict(tags, what="no artist", kind=dr["kind"])}
         got, want = np.array(dr["got"]), np.array(dr["want"])
         # every defining point (vertex / endpoint / point) is among the artist's points (arcs: either order)
-        for w in want:
+        for wi, w in enumerate(want):
             # half-plane: above the radius threshold the edge is drawn as a vertical segment (the second endpoint moves by |dx|)
-            slack = float(np.max(np.abs(want[:, 0][:, None] - want[:, 0][None, :]))) if (inp["model"] == "halfspace" and dr["kind"] != "point") else 0.0
-            slack = slack if slack < 0.15 else 0.0
+            slack = 0.0
+            if inp["model"] == "halfspace" and dr["kind"] != "point" and len(want) > 1:
+                dx = sorted(abs(w[0] - w2[0]) for wj, w2 in enumerate(want) if wj != wi)
+                slack = dx[0] if dx and dx[0] < 0.15 else 0.0
             # a float32 copy has float32 ideal endpoints (half the digits after kleinian_to_poincare): 2e-2 there
             rel = 2e-2 if dr.get("cast") else 1e-4
             if np.min(np.linalg.norm(got - w, axis=1)) > rel * (1 + np.linalg.norm(w)) + slack:
